@@ -408,6 +408,22 @@ func (r *Run) jobMain(j *JobRec) int {
 				r.Faults["stage-output-through-symlinked-dir"]++
 			}
 		}
+		if r.Cfg.SubDirs && !linkDir && hash64(r.FCfg.Salt, j.Key(), j.Phase, name, "subdir")%3 == 0 {
+			// the output lives in a sub-directory of files/ whose name extends the name
+			// of an unreferenced file (extra_unreferenced), next to unreferenced junk
+			dir = path.Join(j.FilesPath, "extra_unreferenced_d")
+			if _, err := os.Lstat(dir); err != nil {
+				vos.MkdirAll(dir, 0755)
+				j.check()
+				jp := path.Join(dir, "junk")
+				jc := fmt.Sprintf("junk|%s|%s", j.Key(), j.Phase)
+				if vos.WriteFile(jp, []byte(jc), 0644) == nil {
+					j.check()
+					r.Files[jp] = &FileRec{Path: jp, Content: jc, Job: j, Seq: vos.NextSeq(), Extra: true}
+				}
+				r.Faults["stage-output-in-subdirectory-next-to-junk"]++
+			}
+		}
 		p := path.Join(dir, fname)
 		if r.Cfg.OutKinds {
 			// C13: what a stage may legally leave behind for a file-typed output:
